@@ -1,6 +1,7 @@
 package harness
 
 import (
+	"errors"
 	"fmt"
 	"reflect"
 	"strings"
@@ -87,6 +88,20 @@ func (e *PanicErr) Unwrap() error { return e.Inner }
 
 // dig errors obtained from scratch containers (what user code that drives a
 // second container would get and pass on)
+// foreignPanicErr: the error another container (with RecoverFromPanics)
+// returns when one of its constructors panicked - user code following the
+// `if err != nil { panic(err) }` idiom would panic with (a wrapper of) it.
+var foreignPanicErr = func() error {
+	c := dig.New(dig.RecoverFromPanics())
+	_ = c.Provide(func() *T4 { panic("foreign panic") })
+	err := c.Invoke(func(*T4) {})
+	var pe dig.PanicError
+	if err == nil || !errors.As(err, &pe) {
+		panic("harness: could not obtain a foreign PanicError")
+	}
+	return err
+}()
+
 var foreignMissingErr, foreignCycleErr = func() (error, error) {
 	c := dig.New()
 	missing := c.Invoke(func(*T4) {})
@@ -164,6 +179,8 @@ func (rt *RT) panicOf(fn, exec int) interface{} {
 		e = &PanicErr{Fn: fn, Exec: exec, Inner: foreignCycleErr}
 	case 4:
 		e = fmt.Sprintf("panic of f%d exec %d", fn, exec)
+	case 5:
+		e = &PanicErr{Fn: fn, Exec: exec, Inner: foreignPanicErr}
 	default:
 		e = &PanicVal{fn, exec}
 	}
